@@ -158,10 +158,20 @@ public:
     }
 
     PointT barycenter(EdgeHandle _eh) const {
-        // sum first, then halve: halving each end point first truncates twice
-        // for integer position types
-        return PointT((vertex(TopologyKernelT::edge(_eh).from_vertex()) +
-                       vertex(TopologyKernelT::edge(_eh).to_vertex())) / 2);
+        const PointT &a = vertex(TopologyKernelT::edge(_eh).from_vertex());
+        const PointT &b = vertex(TopologyKernelT::edge(_eh).to_vertex());
+        if constexpr (std::is_floating_point<typename PointT::value_type>::value) {
+            // halve first: the sum of two large coordinates overflows
+            return PointT(0.5 * a + 0.5 * b);
+        } else {
+            // integer positions: halving each end point alone truncates twice,
+            // and the plain sum overflows - halve, then add the lost halves
+            PointT p(a);
+            for (size_t i = 0; i < p.size(); ++i) {
+                p[i] = a[i] / 2 + b[i] / 2 + (a[i] % 2 + b[i] % 2) / 2;
+            }
+            return p;
+        }
     }
 
     PointT barycenter(FaceHandle _fh) const {
